@@ -980,7 +980,96 @@ def job_dists(job):
     return {"id": job["id"], "dists": out}
 
 
-JOBS = {"dists": job_dists, "invariants": job_invariants, "session": job_session, "accepts": job_accepts, "analyze": job_analyze, "linrec": job_linrec, "explattice": job_explattice, "simulate": job_simulate}
+def job_bayesnet(job):
+    """BIF import: acceptance, parsed CPTs, generated loop, query answers (as printed by the CLI action)"""
+    import contextlib
+    import io
+    import re as _re
+    import tempfile
+    from bayesnet.parser import BifParser
+    from bayesnet.code_generator import CodeGenerator
+    from bayesnet.query.sampling_time_query import SamplingTimeQuery
+    from bayesnet.query.exact_inference_query import ExactInferenceQuery
+    from inputparser import Parser, GoalParser
+    from program import normalize_program
+    from recurrences import RecBuilder
+    from cli.common import get_moment
+    out = []
+    for item in job["nets"]:
+        o = {"nid": item["nid"]}
+        signal.alarm(int(item.get("timeout", 120)))
+        try:
+            with tempfile.NamedTemporaryFile("w", suffix=".bif", delete=False) as f:
+                f.write(item["bif"])
+                path = f.name
+            try:
+                try:
+                    network = BifParser().parse_file(path)
+                except Exception as ex:
+                    o.update(accepted=False, exc=type(ex).__name__, msg=str(ex)[:200])
+                    out.append(o)
+                    continue
+            finally:
+                os.unlink(path)
+            o["accepted"] = True
+            o["var_order"] = list(network.variables.keys())
+            cpts = {}
+            import itertools as _it
+            for name, v in network.variables.items():
+                rows = []
+                for comb in _it.product(*[p.domain for p in v.parents]):
+                    rows.append([float_frac(x) for x in v.cpt[comb]])
+                cpts[name] = {"parents": [p.name for p in v.parents], "domain": list(v.domain), "rows": rows}
+            o["cpts"] = cpts
+            gen_ = CodeGenerator(network, None)
+            code = gen_.generate_code()
+            o["code"] = code
+            o["names"] = dict(gen_.polar_variable_names)
+            try:
+                program = Parser().parse_string(code)
+                vs, _ = program_symbols(program)
+                o["program"] = Exporter(vs, {}).program(program)
+            except Exception as ex:
+                o["program_exc"] = f"{type(ex).__name__}: {str(ex)[:200]}"
+            o["queries"] = []
+            for qy in item.get("queries", []):
+                qo = dict(qy)
+                try:
+                    if qy["kind"] == "inference":
+                        query = ExactInferenceQuery(qy["text"], network)
+                    else:
+                        query = SamplingTimeQuery(qy["text"], network)
+                    cg = CodeGenerator(network, query)
+                    qcode = cg.generate_code()
+                    program = normalize_program(Parser().parse_string(qcode))
+                    rb = RecBuilder(program)
+                    goals = query.generate_query(network, cg.polar_variable_names)
+                    results = []
+                    for goal_type, goal_data in [GoalParser.parse(g) for g in goals]:
+                        r, _ = get_moment(goal_data[0], {}, rb, Namespace(solvability_check=False, at_n=-1, after_loop=False), program)
+                        results.append(r)
+                    buf = io.StringIO()
+                    with contextlib.redirect_stdout(buf):
+                        query.generate_result(results)
+                    text = buf.getvalue()
+                    qo["printed"] = text[:300]
+                    head = text.split(" ≈")[0]
+                    val = head.rsplit(" = ", 1)[1] if qy["kind"] == "inference" else head.rsplit(" is ", 1)[1]
+                    qo["value"] = classify_value(sympy.sympify(val))
+                except JobTimeout:
+                    qo["exc"] = "timeout"
+                except Exception as ex:
+                    qo["exc"] = f"{type(ex).__name__}: {str(ex)[:200]}"
+                o["queries"].append(qo)
+        except JobTimeout:
+            o["exc"] = "timeout"
+        finally:
+            signal.alarm(int(job.get("timeout", 900)))
+        out.append(o)
+    return {"id": job["id"], "nets": out}
+
+
+JOBS = {"bayesnet": job_bayesnet, "dists": job_dists, "invariants": job_invariants, "session": job_session, "accepts": job_accepts, "analyze": job_analyze, "linrec": job_linrec, "explattice": job_explattice, "simulate": job_simulate}
 
 
 def handle(job):
